@@ -166,6 +166,9 @@ pub struct PanicInfo {
     pub file: String,
     pub line: u32,
     pub message: String,
+    /// for panics raised inside std or a dependency: does the innermost frame of this workspace belong to the
+    /// library under test (Some(true)) or to the harness (Some(false))? None: the back trace did not tell
+    pub innermost_is_library: Option<bool>,
 }
 
 thread_local! {
@@ -185,7 +188,22 @@ pub fn install_panic_hook() {
         } else {
             "<non-string panic>".to_string()
         };
-        LAST_PANIC.with(|p| *p.borrow_mut() = Some(PanicInfo { file, line, message }));
+        let mut innermost_is_library = None;
+        if !file.contains("/verif/") && !file.contains("/repo/") && !file.starts_with("src/") {
+            let bt = std::backtrace::Backtrace::force_capture().to_string();
+            for l in bt.lines() {
+                let l = l.trim_start();
+                if l.contains("in_toto::") {
+                    innermost_is_library = Some(true);
+                    break;
+                }
+                if l.contains("itv::") || l.contains("itv_oracles::") {
+                    innermost_is_library = Some(false);
+                    break;
+                }
+            }
+        }
+        LAST_PANIC.with(|p| *p.borrow_mut() = Some(PanicInfo { file, line, message, innermost_is_library }));
     }));
 }
 
@@ -198,6 +216,7 @@ pub fn guarded<T>(f: impl FnOnce() -> T) -> Result<T, PanicInfo> {
             file: "?".into(),
             line: 0,
             message: "?".into(),
+            innermost_is_library: None,
         })),
     }
 }
@@ -205,7 +224,11 @@ pub fn guarded<T>(f: impl FnOnce() -> T) -> Result<T, PanicInfo> {
 impl PanicInfo {
     /// Does the panic originate in the library under test (as opposed to the harness)?
     pub fn in_library(&self) -> bool {
-        !self.file.contains("/verif/") && !self.file.starts_with("src/")
+        if self.file.contains("/verif/") || self.file.starts_with("src/") {
+            return false;
+        }
+        // std or a dependency: whose call was it?
+        self.innermost_is_library.unwrap_or(true)
     }
     /// Source file relative to the repository, without line number.
     pub fn site(&self) -> String {
